@@ -36,6 +36,21 @@
   `TMP_EPOCH`, the collector's reply needs it (`CannotReadEpoch`) and REMOVES it — which is what refuses a
   `NewEpoch` nested into a `NewEpoch`: the nested one runs the whole pipeline and its reply consumes `TMP_EPOCH`,
   so the outer reply fails and the whole transaction (both epochs) reverts.
+
+  THE PIPELINE FROM INSIDE A FLASH-LOAN CALLBACK.  `NewEpoch`, `CollectFees` and `AggregateFees` are permissionless, so
+  the borrower of a flash loan on a registered vault can send them from its callback, while the vault's
+  `LOAN_COUNTER` is 1 and its balance is down by the loan.  `Op.inloan k amount mode vbal fees inner` = the transaction
+  `FlashLoan { amount }` on vault `k` whose borrower sends `inner` from its callback and then repays.  What the real
+  vault does (`vault/src/execute/{flash_loan,collect_protocol_fee}.rs`, `execute/callback/after_trade.rs`):
+  `flash_loan` records its balance (`vbal`, not part of this model's state: recorded from the real run like the
+  router's outputs), sends `amount` to the borrower with the callback and queues `AfterTrade { old_balance, amount }`;
+  `collect_protocol_fees` does NOT look at the loan counter: it zeroes the pending ledger and sends the pending amount
+  to the collector out of the loan-reduced balance (a bank send that fails, and with it the whole transaction, when
+  the balance does not cover it); `after_trade` computes the three fees `⌊amount · share⌋` from `Config.fees`
+  (`fees`, recorded from the `Config` query), requires `balance ≥ old_balance + protocol + flash + burn`
+  (`NegativeProfit` otherwise), adds the protocol fee to the pending (and all-time) ledger and burns the burn fee.
+  The borrower of the engine tops the vault up to exactly the required balance (`exact`), to more (`over x`) or to one
+  unit less (`short`): it therefore also MAKES UP FOR THE FEES THE VAULT PAID OUT to the collector in mid-loan.
 -/
 import WW.Model.Distributor
 import WW.Model.Collector
@@ -73,6 +88,21 @@ inductive Trig where
   | poolSwap (k : Nat)
 deriving Repr, DecidableEq
 
+/-- how the borrower of an `inloan` transaction repays: it tops the vault up to the balance `after_trade` requires
+    (`exact`), to `extra` more (`over`), or to one unit less (`short`) -/
+inductive Repay where
+  | exact
+  | over (extra : Nat)
+  | short
+deriving Repr, DecidableEq
+
+/-- a vault's `Config.fees`: the shares (atomics of an 18-decimals `Decimal`) of the protocol / flash-loan / burn fee -/
+structure LoanFees where
+  prot : Nat
+  flash : Nat
+  burn : Nat
+deriving Repr, DecidableEq
+
 inductive Op where
   | newEpoch (now : Nat) (router : Nat → Nat → Nat → Nat) (acc : Nat → Nat → Nat)
   | claim (u : Nat) (ans : Nat → Distributor.LairAns)
@@ -107,6 +137,10 @@ inductive Op where
       accrues: a nested collection picks up what earlier swaps of the same transaction left.  The `acc` carried by
       `outer` itself — the same fees summed over the transaction — is not used then.) -/
   | reenter (trig : Trig) (caught : Bool) (hacc : Nat → Nat → Nat → List (Nat × Nat × Nat)) (inner outer : Op)
+  /-- `inner` sent by the borrower of a flash loan of `amount` on vault `vault` FROM INSIDE ITS CALLBACK, then the
+      repayment (see the header).  `vbal` = the vault's balance when the loan is taken and `fees` = its fee shares, as
+      recorded from the real vault (balances of pairs / vaults are not part of this model's state) -/
+  | inloan (vault amount : Nat) (mode : Repay) (vbal : Nat) (fees : LoanFees) (inner : Op)
 
 /-- the contract an operation's message is addressed to -/
 inductive Target where
@@ -139,11 +173,13 @@ def target : Op → Target
   | .coins _ _ _ op => target op
   | .xfail _ op => target op
   | .reenter _ _ _ _ outer => target outer
+  | .inloan .. => .nobody
 
 def isCoins : Op → Bool
   | .coins .. => true
   | .xfail .. => true
   | .reenter .. => true
+  | .inloan .. => true
   | _ => false
 
 /-- the operation contains a `NewEpoch` (a nested one, when it succeeds, consumes the collector's `TMP_EPOCH`) -/
@@ -152,6 +188,7 @@ def hasNewEpoch : Op → Bool
   | .coins _ _ _ op => hasNewEpoch op
   | .xfail _ op => hasNewEpoch op
   | .reenter _ _ _ inner outer => hasNewEpoch inner || hasNewEpoch outer
+  | .inloan _ _ _ _ _ inner => hasNewEpoch inner
   | _ => false
 
 def failCode {α : Type} (code : Nat) : Res α := if code = 2 then .panic else .err
@@ -481,6 +518,78 @@ def stepH (cfg : Cfg) (hk : Hook) (s : St) : Op → Option (Res HS)
     | r => r
   | _ => none
 
+/-! ### the pipeline from inside a flash-loan callback (`Op.inloan`) -/
+
+/-- `Fee::compute` on the loan amount: `⌊amount · share⌋` (conventions of `WW/Model/Vault.lean`) -/
+def loanFee (share amount : Nat) : Nat := amount * share / E18
+
+/-- pending protocol fees of vault `k` (0 when there is no such vault) -/
+def pendOf (s : St) (k : Nat) : Nat :=
+  match s.c.vaults[k]? with
+  | some v => v.pend
+  | none => 0
+
+/-- what the borrower sends to the vault when `need` is missing for the balance `after_trade` requires -/
+def repayOf : Repay → Nat → Nat
+  | .exact, need => need
+  | .over extra, need => need + extra
+  | .short, need => need - 1
+
+/-- `after_trade` booked the loan's protocol fee on the lending vault's pending ledger -/
+def accrueLoan (k fee : Nat) (s : St) : St :=
+  { s with c := { s.c with vaults := modVault k (fun v => { v with pend := v.pend + fee }) s.c.vaults } }
+
+/-- result of a completed `inloan` transaction -/
+structure LoanOut where
+  st : St
+  /-- the lending vault's balance after the transaction -/
+  endBal : Nat
+  /-- what the borrower sent to the vault -/
+  repaid : Nat
+  /-- what the lending vault paid to the collector in mid-loan (its pending fees, if the callback's message collected them) -/
+  paidOut : Nat
+
+/-- what the lending vault paid to the collector in mid-loan: whatever left its pending ledger while the callback's
+    message ran (`s` → `s1`) — `collect_protocol_fees` ignores the loan counter -/
+def loanPaidOut (s s1 : St) (k : Nat) : Nat := pendOf s k - pendOf s1 k
+
+/-- the balance `after_trade` requires: `old_balance + protocol fee + flash-loan fee + burn fee` -/
+def loanRequired (vbal amount : Nat) (fees : LoanFees) : Nat :=
+  vbal + loanFee fees.prot amount + loanFee fees.flash amount + loanFee fees.burn amount
+
+/-- the lending vault's balance when the borrower is about to repay: down by the loan and by the fees it paid out -/
+def loanMid (s s1 : St) (k amount vbal : Nat) : Nat := vbal - amount - loanPaidOut s s1 k
+
+/-- what the borrower sends: it tops the vault up from `loanMid` to the required balance (exactly / more / one short) -/
+def loanRepaid (s s1 : St) (k amount : Nat) (mode : Repay) (vbal : Nat) (fees : LoanFees) : Nat :=
+  repayOf mode (loanRequired vbal amount fees - loanMid s s1 k amount vbal)
+
+/-- the rest of an `inloan` transaction once the callback's message has run (`s` → `s1`): the vault's bank send of the
+    fees collected in mid-loan, the borrower's repayment, `after_trade` -/
+def loanClose (s s1 : St) (k amount : Nat) (mode : Repay) (vbal : Nat) (fees : LoanFees) : Res LoanOut :=
+  if vbal - amount < loanPaidOut s s1 k then .err                -- the bank send of the collected fees cannot be covered
+  else if U128MAX < loanRequired vbal amount fees then .err      -- checked_add
+  else if loanMid s s1 k amount vbal + loanRepaid s s1 k amount mode vbal fees < loanRequired vbal amount fees then .err   -- NegativeProfit
+  else if U128MAX < pendOf s1 k + loanFee fees.prot amount then .err                                                   -- store_fee
+  else
+    .ok { st := accrueLoan k (loanFee fees.prot amount) s1,
+          endBal := loanMid s s1 k amount vbal + loanRepaid s s1 k amount mode vbal fees - loanFee fees.burn amount,
+          repaid := loanRepaid s s1 k amount mode vbal fees,
+          paidOut := loanPaidOut s s1 k }
+
+/-- `FlashLoan { amount }` on vault `k` whose borrower runs `inner` (the callback's message, on the joint state as it is
+    then: nothing of it has changed, only the vault's balance is down by the loan) and repays -/
+def inloanRun (s : St) (k amount : Nat) (mode : Repay) (vbal : Nat) (fees : LoanFees) (inner : St → Res St) : Res LoanOut :=
+  match s.c.vaults[k]? with
+  | none => .err                                                 -- no such contract
+  | some _ =>
+    if amount = 0 ∨ vbal < amount then .err                      -- the bank cannot send the loan
+    else
+      match inner s with
+      | .ok s1 => loanClose s s1 k amount mode vbal fees
+      | .err => .err
+      | .panic => .panic
+
 def step (cfg : Cfg) (s : St) : Op → Res St
   | .newEpoch now router acc =>
     match newEpoch cfg s now router acc with
@@ -569,6 +678,11 @@ def step (cfg : Cfg) (s : St) : Op → Res St
     | some .err => .err
     | some .panic => .panic
     | none => step cfg s outer
+  | .inloan k amount mode vbal fees inner =>
+    match inloanRun s k amount mode vbal fees (fun s0 => step cfg s0 inner) with
+    | .ok o => .ok o.st
+    | .err => .err
+    | .panic => .panic
 
 /-- fold a history of the joint machine; failed operations leave the state unchanged -/
 def reach (cfg : Cfg) (s : St) : List Op → St
